@@ -15,10 +15,12 @@ import (
 
 	ipfslog "berty.tech/go-ipfs-log"
 	"berty.tech/go-ipfs-log/accesscontroller"
+	"berty.tech/go-ipfs-log/enc"
 	"berty.tech/go-ipfs-log/entry"
 	"berty.tech/go-ipfs-log/entry/sorting"
 	idp "berty.tech/go-ipfs-log/identityprovider"
 	"berty.tech/go-ipfs-log/iface"
+	"berty.tech/go-ipfs-log/io/cbor"
 	"github.com/ipfs/go-cid"
 
 	"verifharness/hx"
@@ -59,11 +61,14 @@ type world struct {
 	forked        bool
 	mergedOverlap bool
 	reuseOpts     bool
+	// codec configuration of the history: nil = default, otherwise link-encrypting with one shared key
+	io    iface.IO
+	ioDec *cbor.IOCbor
 	optsCache     map[string]*ipfslog.LogOptions
 }
 
 type coreStats struct {
-	Histories, Ops, Appends, Joins, JoinNs, Loads, Iters, SetIds, TieHists, Forks, Exchanges, DeniedAppends, RejectedJoins, AclHists, Tampers int
+	Histories, Ops, Appends, Joins, JoinNs, Loads, Iters, SetIds, TieHists, Forks, Exchanges, DeniedAppends, RejectedJoins, AclHists, Tampers, KeyedHists int
 	OpHist                                                                                 map[string]int
 	DistinctNontrivial                                                                     int
 	shapes                                                                                 map[string]bool
@@ -84,6 +89,14 @@ func hexs(b []byte) string { return fmt.Sprintf("%x", b) }
 func (w *world) al(e iface.IPFSLogEntry) string {
 	k := e.GetHash().String()
 	if a, ok := w.alias[k]; ok {
+		// another object with a known hash (read back from the store, or copied): its links and clock
+		// must be the ones first seen under this hash
+		if first, ok := w.byAl[a]; ok && first != e {
+			if !sameCidList(first.GetNext(), e.GetNext()) || !sameCidList(first.GetRefs(), e.GetRefs()) ||
+				first.GetClock().GetTime() != e.GetClock().GetTime() || string(first.GetClock().GetID()) != string(e.GetClock().GetID()) {
+				fmt.Fprintf(w.out, "EX %s next=%d/%d refs=%d/%d\n", a, len(first.GetNext()), len(e.GetNext()), len(first.GetRefs()), len(e.GetRefs()))
+			}
+		}
 		return a
 	}
 	a := "e" + strconv.Itoa(len(w.alias))
@@ -112,8 +125,7 @@ func (w *world) alCid(c cid.Cid) string {
 	// loaded partial log names a block we have never looked at; read it from the store.
 	n, err := w.api.D.Get(w.ctx, c)
 	if err == nil {
-		io := mustIO()
-		if e, err := io.DecodeRawEntry(n, c, nil); err == nil {
+		if e, err := w.ioDec.DecodeRawEntry(n, c, nil); err == nil {
 			return w.al(e)
 		}
 	}
@@ -121,6 +133,18 @@ func (w *world) alCid(c cid.Cid) string {
 	w.alias[k] = a
 	fmt.Fprintf(w.out, "U %s %s\n", a, k)
 	return a
+}
+
+func sameCidList(a, b []cid.Cid) bool {
+	if len(a) != len(b) {
+		return false
+	}
+	for i := range a {
+		if !a[i].Equals(b[i]) {
+			return false
+		}
+	}
+	return true
 }
 
 func lst(xs []string) string {
@@ -163,7 +187,7 @@ func (w *world) observe(i int) {
 
 func (w *world) newReplica(id, writer, sk string, deny []string) int {
 	ident := w.ids.Identity(writer)
-	opts := &ipfslog.LogOptions{ID: id, SortFn: sortFnOf(sk)}
+	opts := &ipfslog.LogOptions{ID: id, SortFn: sortFnOf(sk), IO: w.io}
 	if len(deny) == 0 && w.reuseOpts {
 		// replicas created from one reused options value (NewLog writes its defaults back into it)
 		if w.optsCache == nil {
@@ -356,7 +380,7 @@ func (w *world) doTamper(src int, oldest bool) {
 		}
 	}
 	ident := w.ids.Identity(s.writer)
-	nl, err := ipfslog.NewLog(w.api, ident, &ipfslog.LogOptions{ID: s.id, Entries: om, Heads: heads, SortFn: sortFnOf(s.sort)})
+	nl, err := ipfslog.NewLog(w.api, ident, &ipfslog.LogOptions{ID: s.id, Entries: om, Heads: heads, SortFn: sortFnOf(s.sort), IO: w.io})
 	if err != nil {
 		panic(err)
 	}
@@ -390,7 +414,7 @@ func (w *world) doLoad(src int, kind string, n int, writer string, conc int) {
 			if err != nil {
 				return
 			}
-			nl, err = ipfslog.NewFromMultihash(w.ctx, w.api, ident, h, &ipfslog.LogOptions{SortFn: sortFnOf(s.sort)},
+			nl, err = ipfslog.NewFromMultihash(w.ctx, w.api, ident, h, &ipfslog.LogOptions{SortFn: sortFnOf(s.sort), IO: w.io},
 				&ipfslog.FetchOptions{Length: lp, Concurrency: conc, SortFn: sorting.NoZeroes(sortFnOf(s.sort))})
 		case "eh":
 			hs := s.log.Heads().Slice()
@@ -398,24 +422,24 @@ func (w *world) doLoad(src int, kind string, n int, writer string, conc int) {
 				err = fmt.Errorf("not single headed")
 				return
 			}
-			nl, err = ipfslog.NewFromEntryHash(w.ctx, w.api, ident, hs[0].GetHash(), &ipfslog.LogOptions{ID: s.id, SortFn: sortFnOf(s.sort)},
+			nl, err = ipfslog.NewFromEntryHash(w.ctx, w.api, ident, hs[0].GetHash(), &ipfslog.LogOptions{ID: s.id, SortFn: sortFnOf(s.sort), IO: w.io},
 				&ipfslog.FetchOptions{Length: lp, Concurrency: conc})
 		case "json":
-			nl, err = ipfslog.NewFromJSON(w.ctx, w.api, ident, s.log.ToJSONLog(), &ipfslog.LogOptions{SortFn: sortFnOf(s.sort)},
+			nl, err = ipfslog.NewFromJSON(w.ctx, w.api, ident, s.log.ToJSONLog(), &ipfslog.LogOptions{SortFn: sortFnOf(s.sort), IO: w.io},
 				&entry.FetchOptions{Length: lp, Concurrency: conc})
 		case "ent":
-			nl, err = ipfslog.NewFromEntry(w.ctx, w.api, ident, s.log.Heads().Slice(), &ipfslog.LogOptions{SortFn: sortFnOf(s.sort)},
+			nl, err = ipfslog.NewFromEntry(w.ctx, w.api, ident, s.log.Heads().Slice(), &ipfslog.LogOptions{SortFn: sortFnOf(s.sort), IO: w.io},
 				&entry.FetchOptions{Length: lp, Concurrency: conc})
 		// in-memory copies through the constructor: the new replica must own its state, whatever the
 		// caller handed in (the live entry map, an accessor result, a freshly built map)
 		case "cpE":
-			nl, err = ipfslog.NewLog(w.api, ident, &ipfslog.LogOptions{ID: s.id, SortFn: sortFnOf(s.sort),
+			nl, err = ipfslog.NewLog(w.api, ident, &ipfslog.LogOptions{ID: s.id, SortFn: sortFnOf(s.sort), IO: w.io,
 				Entries: s.log.Entries, Heads: s.log.Heads().Slice()})
 		case "cpG":
-			nl, err = ipfslog.NewLog(w.api, ident, &ipfslog.LogOptions{ID: s.id, SortFn: sortFnOf(s.sort),
+			nl, err = ipfslog.NewLog(w.api, ident, &ipfslog.LogOptions{ID: s.id, SortFn: sortFnOf(s.sort), IO: w.io,
 				Entries: s.log.GetEntries()})
 		case "cpV":
-			nl, err = ipfslog.NewLog(w.api, ident, &ipfslog.LogOptions{ID: s.id, SortFn: sortFnOf(s.sort),
+			nl, err = ipfslog.NewLog(w.api, ident, &ipfslog.LogOptions{ID: s.id, SortFn: sortFnOf(s.sort), IO: w.io,
 				Entries: entry.NewOrderedMapFromEntries(s.log.Values().Slice()), Heads: s.log.Heads().Slice()})
 		}
 	}()
@@ -608,7 +632,19 @@ func runCore(seed int64, nHist, nOps int, out *bufio.Writer, thorough bool) *cor
 			stats.AclHists++
 		}
 		w.reuseOpts = r.Intn(3) == 0
-		fmt.Fprintf(out, "H %d %d shared=%v bounded=%v sort=%s acl=%v\n", h, hs, shared, bounded, sk, acl)
+		w.ioDec = mustIO()
+		keyed := r.Intn(4) == 0
+		if keyed {
+			kb := make([]byte, 32)
+			for i := range kb {
+				kb[i] = byte(r.Intn(256))
+			}
+			lk, _ := enc.NewSecretbox(kb)
+			w.ioDec = mustIO().ApplyOptions(&cbor.Options{LinkKey: lk})
+			w.io = w.ioDec
+			stats.KeyedHists++
+		}
+		fmt.Fprintf(out, "H %d %d shared=%v bounded=%v sort=%s acl=%v keyed=%v\n", h, hs, shared, bounded, sk, acl, keyed)
 		for i := 0; i < nRep; i++ {
 			wr := fmt.Sprintf("w%d", i)
 			if shared {
@@ -766,6 +802,20 @@ func runCore(seed int64, nHist, nOps int, out *bufio.Writer, thorough bool) *cor
 			w.observe(i)
 		}
 		fmt.Fprintf(out, "X end\n")
+		if keyed {
+			// with a link key no entry block may carry traversable links (manifests do: their heads)
+			linked, blocks := 0, 0
+			for c, nd := range w.api.D.Blocks {
+				if _, ok := w.alias[c.String()]; !ok {
+					continue
+				}
+				blocks++
+				if len(nd.Links()) > 0 {
+					linked++
+				}
+			}
+			fmt.Fprintf(out, "K %d %d\n", blocks, linked)
+		}
 		stats.Exchanges++
 		stats.Histories++
 		if w.forked && w.mergedOverlap {
